@@ -4,11 +4,12 @@ import Pyx12Verif.Drv.Walk
 import Pyx12Verif.Drv.C14
 import Pyx12Verif.Drv.C15
 import Pyx12Verif.Drv.C17
+import Pyx12Verif.Drv.C19
 
 open Pyx12Verif
 
 def handlers : List (List (List Char) → Option String) :=
-  [Drv.C13.handle, Drv.C14.handle, Drv.C15.handle, Drv.C17.handle]
+  [Drv.C13.handle, Drv.C14.handle, Drv.C15.handle, Drv.C17.handle, Drv.C19.handle]
 
 partial def loop (hin hout : IO.FS.Stream) (st : Drv.Walk.DState) : IO Unit := do
   let line ← hin.getLine
